@@ -376,7 +376,7 @@ def run_shape(ctx, rng, r):
             ctx.nontrivial("b", shape(r), chain)
     # ---- sizeof: every named leaf made unsizable in turn
     for chain, leaf in leaves:
-        for unsized in (["name", "VarInt"], ["Bytes", ["this", "nosuchkey"]], ["Prefixed", ["name", "VarInt"], B, False], ["If", ["this", "nosuchkey"], B]):
+        for unsized in UNSIZED:
             r2 = replace_leaf(r, chain, unsized)
             try:
                 d2 = mk(r2)
@@ -419,6 +419,22 @@ def dedupe_members(active):
     return out
 
 
+def _unsized_forms():
+    """members whose size cannot be determined: inherently, or because a parameter refers to a context entry that is absent
+    while sizing - spelled as this.key, as a callable using attribute access and as a callable using item access"""
+    from .c05 import slots
+    out = [["name", "VarInt"], ["Prefixed", ["name", "VarInt"], B, False]]
+    for e in (["this", "nosuchkey"], ["lam", "nosuchkey"], ["lamitem", "nosuchkey"], ["this", "_", "nosuchkey"], ["lam", "_params", "nosuchkey"]):
+        for label, x in slots(e):
+            if label.split(".")[0] in ("Bytes", "BytesInteger", "PaddedString", "Padding", "Padded", "Aligned", "FixedSized", "Array", "IfThenElse", "If", "Switch", "Array(Array)",
+                                       "Padded(Padded)", "Struct/Bytes", "PaddedString16", "Switch.key+default") or label == "Switch.key+default":
+                out.append(x)
+    return out
+
+
+UNSIZED = _unsized_forms()
+
+
 def first_unsized_chain(r, prefix=()):
     """chain of names to the first member (in declaration order) whose size the library cannot determine, following the
     library's evaluation order; None if the model cannot tell"""
@@ -438,6 +454,14 @@ def first_unsized_chain(r, prefix=()):
                 deeper = first_unsized_chain(inner, p2)
                 return deeper if deeper is not None else p2
         return None
+    def resolves(e):
+        try:
+            M.ev(e, M.top_scope({}))
+            return True
+        except Exception:
+            return False
+    if k in ("Array", "IfThenElse", "Switch") and not resolves(r[1]):
+        return prefix                      # the count / condition / key itself cannot be evaluated: this member is the failing one
     if k == "Array":
         return first_unsized_chain(r[2], prefix) if not sized(r[2]) else None
     if k == "Prefixed":
@@ -447,10 +471,12 @@ def first_unsized_chain(r, prefix=()):
     if k == "FixedSized":
         return None
     if k == "IfThenElse":
-        b = r[2] if r[1] else r[3]
+        b = r[2] if M.ev(r[1], M.top_scope({})) else r[3]
         return first_unsized_chain(b, prefix) if not sized(b) else None
     if k == "Switch":
-        b = r[2][0][1]
+        key = M.ev(r[1], M.top_scope({}))
+        hit = [c for ck, c in r[2] if ck == key]
+        b = hit[0] if hit else (r[3] if len(r) > 3 and r[3] is not None else ["name", "Pass"])
         return first_unsized_chain(b, prefix) if not sized(b) else None
     return prefix if not sized(r) else None
 
